@@ -557,11 +557,20 @@ func (ps *PruningStorer) Remove(key []byte) error {
 
 	ps.lock.RLock()
 	defer ps.lock.RUnlock()
+
+	// the key might have been written in any of the active epochs, so it has to be removed from all of them
+	removed := false
 	for _, pd := range ps.activePersisters {
-		err = pd.persister.Remove(key)
-		if err == nil {
-			return nil
+		errRemove := pd.persister.Remove(key)
+		if errRemove != nil {
+			err = errRemove
+			continue
 		}
+
+		removed = true
+	}
+	if removed {
+		return nil
 	}
 
 	return err
